@@ -80,6 +80,8 @@ def check_mirror(full, half, axis, parity, on_plane):
         for j in range(1, n):
             if not np.array_equal(F[n - j], par * F[n + j]):
                 return f"on-plane mirror law full[n-{j}] = p*full[n+{j}] fails along axis {axis}"
+        if n >= 2 and not np.array_equal(F[0], F[1]):
+            return f"on-plane edge sample full[0] does not repeat its neighbour full[1] along axis {axis}"
     return None
 
 
@@ -408,7 +410,17 @@ def det_specs(rng, sym, vshape, ndet):
 
 def scene_case(rng, sym, ndet):
     vshape = [rng.choice([2, 4, 4, 6]) if sym[a] != 0 else rng.randint(2, 5) for a in range(3)]
-    return {"op": "scene", "sym": list(sym), "vshape": vshape, "dets": det_specs(rng, sym, vshape, ndet),
+    dets = det_specs(rng, sym, vshape, ndet)
+    # one summed and one averaged record that cross EVERY symmetry plane (factors 2^count, prod over all axes)
+    for sp in dets:
+        if sp["kind"] in ("energy", "field") and rng.chance(0.5):
+            for a in range(3):
+                if sym[a] != 0:
+                    sp["lo"][a], sp["hi"][a] = 0, vshape[a]
+            sp["reduce"] = True
+            if sp["kind"] == "energy":
+                sp["slices"] = False
+    return {"op": "scene", "sym": list(sym), "vshape": vshape, "dets": dets,
             "seed": rng.randint(0, 2 ** 31 - 1), "eager": rng.chance(0.25)}
 
 
